@@ -1,7 +1,21 @@
 import SieveModel.Model.Serialize
 import SieveModel.Model.Lexer
+import SieveModel.Lemmas.Printable
+import SieveModel.Generated.Tables
 /-!
-# C04 — print/parse round trip (lemmas about the printer's treatment of values)
+# C04 — print/parse round trip
+
+* **printing is total on what the parser accepts** (`accepted_script_can_be_printed`): for every table
+  satisfying the decidable condition `Printable.TableP` (names resolve to their own definition, slot
+  names unique, a slot that takes string lists is neither a tag slot nor a test-list slot, `hasflag`'s
+  two slots are value slots) and every input, if the parser model accepts, the serializer model returns
+  a text — `tosieve` never raises on an accepted tree.  Proof: every stack frame and every finished
+  command stays "printable" through every parser step (`Lemmas/Printable.lean`).  `TableP` is discharged
+  for the table regenerated from `/repo` by kernel evaluation (`live_table_printable`).
+* lemmas about the printer's treatment of values (quoted items and values verbatim, one LF after
+  multi-line text).
+The second half of the round trip (the printed text parses back to the same tree) needs the
+lexer/parser equivalence theorems and is decided by the round-trip oracle on every accepted input.
 -/
 namespace C04
 open Ser
@@ -25,5 +39,20 @@ theorem scalar_printed_verbatim_or_with_lf (v : Bytes) :
 
 theorem number_printed_verbatim (v : Bytes) : renderScalar false v = v := by
   simp [renderScalar]
+
+/-- the table regenerated from `/repo` meets the printability conditions -/
+theorem live_table_printable : Printable.TableP Generated.builtinTable := by decide +kernel
+
+/-- **`tosieve` never raises on an accepted script** -/
+theorem accepted_script_can_be_printed (T : Table) (hT : Printable.TableP T) (text : Bytes) (prev : PState) (r : List Node)
+    (h : Machine.parse T text prev = .accept r) : ∃ out, Ser.script T r = some out := by
+  have := Printable.accepted_is_printable hT text prev r h
+  cases hs : Ser.script T r with
+  | none => exact absurd hs this
+  | some out => exact ⟨out, rfl⟩
+
+theorem accepted_script_can_be_printed_live (text : Bytes) (prev : PState) (r : List Node)
+    (h : Machine.parse Generated.builtinTable text prev = .accept r) : ∃ out, Ser.script Generated.builtinTable r = some out :=
+  accepted_script_can_be_printed _ live_table_printable text prev r h
 
 end C04
